@@ -282,15 +282,33 @@ func (f *Fixture) ForceUnlock(ids []string) {
 // handlers of the remaining clients can end (their farewell broadcast would otherwise
 // park on a record whose mutex was left locked) and the teamserver can be reused.
 func (f *Fixture) PurgeDead(addrs []string) {
+	var recs []*server.Client
 	for _, a := range addrs {
 		if id, cl := f.ClientByAddr(a); id != "" {
 			f.TS.Clients.Delete(id)
-			if !cl.Mutex.TryLock() {
-				cl.Mutex.Unlock()
-			} else {
-				cl.Mutex.Unlock()
-			}
+			recs = append(recs, cl)
 		}
+	}
+	if len(recs) == 0 {
+		return
+	}
+	// a handler that was waiting for one of these mutexes takes it, fails its write and
+	// leaves it locked again for the next waiter: keep releasing for a little while
+	free := 0
+	for round := 0; round < 300 && free < 8; round++ {
+		all := true
+		for _, cl := range recs {
+			if !cl.Mutex.TryLock() {
+				all = false
+			}
+			cl.Mutex.Unlock()
+		}
+		if all {
+			free++
+		} else {
+			free = 0
+		}
+		time.Sleep(200 * time.Microsecond)
 	}
 }
 
@@ -319,8 +337,21 @@ func (f *Fixture) Quiesce(d time.Duration) bool {
 // still running or stuck inside it and a new one is started next time).
 // dirty forces the discard.
 func (f *Fixture) Release(dirty bool) {
+	// one after the other: when several operators vanish at the same moment each
+	// handler's farewell broadcast fails on the others' closed sockets, which (SendEvent
+	// not unlocking after a failed write) parks the handlers on each other for good
 	for _, c := range f.clients {
 		c.Abort()
+		if dirty || c.Peer.ClosedByServer() {
+			continue
+		}
+		deadline := time.Now().Add(time.Second)
+		for time.Now().Before(deadline) {
+			if id, _ := f.ClientByAddr(c.Local); id == "" {
+				break
+			}
+			time.Sleep(100 * time.Microsecond)
+		}
 	}
 	f.L.KillAll()
 	for _, c := range f.clients {
